@@ -2,6 +2,7 @@
 From Coq Require Import String ZArith List Bool Permutation.
 From FcpV Require Import Base.Bits Schema.Types Base.SortPerm Schema.PermProofs Layout.Packed Wire.Wire Py.PySerde.
 From FcpV Require Import Py.BufferLib Py.BufferProofs Py.DispatchLib Py.DispatchDefs Py.DispatchProofs Py.DispatchPerm.
+From FcpV Require Import Layout.PackedProofs Layout.EncoderLib Layout.EncoderProofs Layout.EncoderPerm.
 Import ListNotations.
 Open Scope Z_scope.
 
@@ -65,3 +66,15 @@ Theorem source_decode_ignores_declaration_order :
     PyDispatch.py_decode fuel sc name data = PyDispatch.py_decode fuel sc' name data.
 Proof. exact translated_decode_perm. Qed.
 Print Assumptions source_decode_ignores_declaration_order.
+
+(* ---- encoding.py itself (class PackedEncoder translated from the source on every run: gen/PyEncoder.v): the translated
+   generate() returns the same Values for both declarations ---- *)
+Theorem source_layout_ignores_declaration_order :
+  forall sc sc' unroll im ps (e0 e0' : penc) fuel l,
+    schema_perm sc sc' -> NoDup (map sname (structs sc)) -> NoDup (map sname (structs sc')) -> sig_ok im ->
+    pe_fcp e0 = sc -> pe_unroll e0 = unroll -> pe_fcp e0' = sc' -> pe_unroll e0' = unroll ->
+    lresolve unroll sc (itype im) = Some l -> (ldepth l <= fuel)%nat ->
+    snd (generate unroll sc encoder_init im) = Some ps ->
+    (exists a, PyEncoder.py_generate fuel e0 im = POk (a, map pv ps)) /\ (exists b, PyEncoder.py_generate fuel e0' im = POk (b, map pv ps)).
+Proof. exact translated_generate_perm. Qed.
+Print Assumptions source_layout_ignores_declaration_order.
